@@ -338,6 +338,19 @@ func runC04(r *engine.Run) {
 		uplink(c, "uplink", ch[0], c04EUIs[ch[1]], c04EUIs[ch[2]], c04Nonces[ch[3]], c04NetIDs[ch[4]], c02Keys[ch[5]])
 	})
 	// bit walks: euiA 64, devEUI 64, nonce 16, netID 24, key 128 = 296 bits x type 4 x base 2
+	// join-requests whose correct MIC is 00000000 / ffffffff (witness.go): set, validated and accepted
+	// from the wire like any other
+	r.Part("uplink/conspicuous-mic-values", uint64(len(witnessJoin)), func(c *engine.Case) {
+		w := witnessJoin[c.Index]
+		le := func(e [8]byte) []byte { return revBytes(e[:]) }
+		payload := append(append(le(witnessJoinEUI), le(w.devEUI)...), byte(w.nonce), byte(w.nonce>>8))
+		if got := spec.JoinMIC(witnessKey, 0x00, payload); got != w.mic {
+			r.HarnessError("witness join-request %x: the specification MIC is %x, not %x", payload, got[:], w.mic[:])
+			return
+		}
+		uplink(c, "uplink-witness", 0, witnessJoinEUI, w.devEUI, w.nonce, [3]byte{}, witnessKey)
+		c.Outcome(fmt.Sprintf("uplink-witness/mic=%x", w.mic[:]))
+	})
 	r.PartDims("uplink/bit-walks", []string{"bit:296 (euiA64 devEUI64 nonce16 netid24 key128)", "type:4", "base:2"}, 296*4*2, func(c *engine.Case) {
 		bit := int(c.Index % 296)
 		typ := int(c.Index/296) % 4
@@ -446,6 +459,17 @@ func runC04(r *engine.Run) {
 		c.Outcome(fmt.Sprintf("ja-C/optneg=%v/changed-input-accepted=%v", optNeg, ok))
 	})
 	// ---- refusals: RXDelay > 15 and JoinNonce >= 2^24 are not encodable
+	// ---- a join-accept whose correct MIC is 00000000 (witness.go)
+	r.Part("joinaccept/conspicuous-mic-value", 1, func(c *engine.Case) {
+		w := witnessJoinAccept
+		j := jaValue{joinNonce: w.joinNonce, netID: [3]byte{1, 2, 3}, devAddr: w.devAddr, dlSettings: 0, rxDelay: 1}
+		if got := spec.JoinMIC(witnessKey, 0x20, j.wire()); got != w.mic {
+			r.HarnessError("witness join-accept %x: the specification MIC is %x, not %x", j.wire(), got[:], w.mic[:])
+			return
+		}
+		c04JoinAccept(c, "ja-witness", j, 0xFF, c04EUIs[1], 0x1234, witnessKey)
+	})
+
 	// ---- a refused call between two valid ones: valid(key A), refused(key X), valid(key X). What the
 	// refused call leaves behind (it names a key the library has not worked with yet) must not reach
 	// the third call: its ciphertext / plaintext is the specification's for key X
